@@ -1773,3 +1773,50 @@ def m_option_int_cmp(ctx):
     eq = z3.Or(z3.And(z3.Not(pa), z3.Not(pb)), z3.And(pa, pb, va == vb))
     r = {'lt': a_lt_b, 'le': z3.Or(a_lt_b, eq), 'gt': z3.Not(z3.Or(a_lt_b, eq)), 'ge': z3.Not(a_lt_b)}[op]
     return [(None, r)]
+
+
+@model(r'^(std|core)::mem::size_of::<(.+)>$')
+def m_size_of(ctx):
+    """size_of::<T>() for integer types, byte arrays, and workspace structs made only of byte arrays / u8 (alignment 1, so no padding): read from the source"""
+    ex = ctx.ex
+    ty = re.match(r'^(?:std|core)::mem::size_of::<(.+)>$', ctx.callee).group(1).strip()
+    n = _size_of_type(ex, ty)
+    if n is None:
+        raise MirError(f'size_of::<{ty}> is not modelled (layout unknown)')
+    return [(None, z3.BitVecVal(n, 64))]
+
+
+def _size_of_type(ex, ty, depth=0):
+    ty = ty.strip()
+    if ty in INT_TY:
+        return INT_TY[ty] // 8
+    m = re.match(r'^\[(.+); (\d+)(?:_usize)?\]$', ty)
+    if m:
+        inner = _size_of_type(ex, m.group(1), depth + 1)
+        return None if inner is None else inner * int(m.group(2))
+    if depth > 2:
+        return None
+    import subprocess
+    from vlib import snap
+    name = type_head(ty).split('::')[-1]
+    r = subprocess.run(['grep', '-rlE', rf'struct {name}(<[^>{{]*>)? *\{{', snap.REPO + '/crates', '--include=*.rs'], capture_output=True, text=True)
+    files = [f for f in r.stdout.strip().split('\n') if f]
+    if len(files) != 1:
+        return None
+    src = open(files[0]).read()
+    mm = re.search(rf'struct {name}(?:<[^>{{]*>)? *\{{(.*?)\n\}}', src, re.S)
+    if not mm:
+        return None
+    total = 0
+    for line in mm.group(1).split('\n'):
+        line = line.split('//')[0].strip()
+        if not line or line.startswith('#'):
+            continue
+        fm = re.match(r'^(?:pub(?:\([^)]*\))? )?\w+: (.+?),?$', line)
+        if not fm:
+            return None
+        fty = fm.group(1).strip()
+        if not re.match(r'^(u8|\[u8; \d+\])$', fty):       # only alignment-1 fields: anything else could introduce padding
+            return None
+        total += _size_of_type(ex, fty, depth + 1)
+    return total
